@@ -23,6 +23,7 @@ import MF.Model.Handlers
 import MF.Model.TypeParse
 import MF.Spec.TypeReads
 import MF.Model.Bridge
+import MF.Model.Query
 open MF MF.Lex
 
 def hx (b : Bytes) : String := if b.isEmpty then "-" else toHex b
@@ -188,6 +189,11 @@ def handle (line : String) : String :=
   | ["EXPRPOS", h] =>
     match ofHex? (if h == "-" then "" else h) with
     | some buf => Expr.exprPosRunC buf
+    | none => "BADREQ"
+  | ["QUERY", ep, h] =>
+    -- Task X: ep = Q (ParseQuery) | S (ParseStatement); the handler is MF.Query.queryRun (MF/Model/Query.lean)
+    match ofHex? (if h == "-" then "" else h) with
+    | some buf => Query.queryRun (ep == "S") buf
     | none => "BADREQ"
   | ["TYPE", h] =>
     match ofHex? (if h == "-" then "" else h) with
